@@ -144,8 +144,8 @@ def r3_reclaim_on_stop(ctx):
         r.check(ok, 'reclaim|' + fname, f.file, '%s: every path from the state change to a return passes %s' % (fname.split('::')[-1], '/'.join(x.split('::')[-1] for x in RECLAIMERS)), witness=wit)
 
 
-def r7_discard_frees(ctx):
-    r = ctx.rule('C16.R7', 'PAIR', 'discarding a stream\'s buffered DATA (clear_queue) is followed by reclaim_all_capacity on every path: the window that backed the discarded bytes returns to the connection')
+def r7_discard_frees(ctx, rid='C16.R7'):
+    r = ctx.rule(rid, 'PAIR', 'discarding a stream\'s buffered DATA (clear_queue) is followed by reclaim_all_capacity on every path: the window that backed the discarded bytes returns to the connection')
     F = ctx.facts
     CQ = PRIO + '::clear_queue'
     RA = PRIO + '::reclaim_all_capacity'
